@@ -459,6 +459,24 @@ def _fit(bv, have, k, signed=False):
     return z3.SignExt(k - have, bv) if signed else z3.ZeroExt(k - have, bv)
 
 
+DIV_BY_WITNESS = False  # opt-in (set by a check before exploring): x // m, x % m for x >= 0 and constant m are lowered as fresh
+#                         (q, r) with the definitional side constraint x == q*m + r, r < m instead of a bit-blasted divider
+
+
+def _div_witness(x, m):
+    d = x._bv.get(("qr", m))
+    if d is None:
+        Wx = max(x.U, m.bit_length())
+        mb = m.bit_length()
+        q = z3.BitVec(f"divq!{x.id}!{m}", Wx)
+        rem = z3.BitVec(f"divr!{x.id}!{m}", mb)
+        W2 = Wx + 1  # q <= hi//m and r < m  =>  q*m + r <= hi + m - 1 < 2^(Wx+1): no wrap-around at W2 bits
+        _side("bv", z3.And(z3.ZeroExt(1, q) * z3.BitVecVal(m, W2) + z3.ZeroExt(W2 - mb, rem) == z3.ZeroExt(1, low(x, Wx)),
+                           z3.ULT(rem, z3.BitVecVal(m, mb)), z3.ULE(q, z3.BitVecVal(x.hi // m, Wx))))
+        d = x._bv[("qr", m)] = (q, rem, Wx)
+    return d
+
+
 def low(n, k):
     """BV(k) equal to value(n) mod 2^k"""
     r = n._bv.get(k)
@@ -476,22 +494,10 @@ def low(n, k):
         if vlo >= 0:
             w = max(vhi.bit_length(), 1)
             v = z3.BitVec(name, w)
-            if "_decl" not in n._bv:
-                n._bv["_decl"] = True
-                if vhi != (1 << w) - 1:
-                    _side("bv", z3.ULE(v, z3.BitVecVal(vhi, w)))
-                if vlo > 0:
-                    _side("bv", z3.UGE(v, z3.BitVecVal(vlo, w)))
             r = _fit(v, w, k)
         else:
             w = bits_for(vlo, vhi)
             v = z3.BitVec(name, w)
-            if "_decl" not in n._bv:
-                n._bv["_decl"] = True
-                if vhi != (1 << (w - 1)) - 1:
-                    _side("bv", v <= z3.BitVecVal(vhi, w))
-                if vlo != -(1 << (w - 1)):
-                    _side("bv", v >= z3.BitVecVal(vlo, w))
             r = _fit(v, w, k, signed=True)
     elif op in ("or", "xor", "add") and nz(a[0], k) & nz(a[1], k) == 0:
         r = _splice(low(a[0], k), nz(a[0], k), low(a[1], k), nz(a[1], k), k)
@@ -513,6 +519,9 @@ def low(n, k):
     elif op == "cat":
         full = z3.Concat(*[low(it, 8) for it in a]) if len(a) > 1 else low(a[0], 8)
         r = _fit(full, 8 * len(a), k)
+    elif op in ("mod", "div") and DIV_BY_WITNESS and a[0].lo >= 0:
+        q, rem, Wx = _div_witness(a[0], a[1])
+        r = _fit(q if op == "div" else _fit(rem, a[1].bit_length(), Wx), Wx, k)
     elif op == "mod":
         x, m = a
         if x.lo >= 0:
@@ -579,7 +588,6 @@ def lowi(n):
     elif op == "var":
         name, vlo, vhi = a
         r = z3.Int(name)
-        _side("int", z3.And(r >= vlo, r <= vhi))
     elif op == "add":
         r = lowi(a[0]) + lowi(a[1])
     elif op == "sub":
@@ -606,6 +614,15 @@ def lowi(n):
     elif op in ("or", "xor", "add") and a[0].lo >= 0 and a[1].lo >= 0 and \
             nz(a[0], max(a[0].U, a[1].U)) & nz(a[1], max(a[0].U, a[1].U)) == 0:
         r = lowi(a[0]) + lowi(a[1])
+    elif op in ("and", "or", "xor") and a[0].lo >= 0 and a[1].lo >= 0:
+        # bitwise operation on non-negative operands as an uninterpreted function (sound over-approximation in LIA mode)
+        key = ("int", "bit_" + op, 2, 0)
+        f = _UFD.get(key)
+        if f is None:
+            f = z3.Function("bit_" + op + "!i", z3.IntSort(), z3.IntSort(), z3.IntSort())
+            _UFD[key] = f
+        r = f(lowi(a[0]), lowi(a[1]))
+        _side("int", z3.And(r >= n.lo, r <= n.hi))
     elif op == "ite":
         r = z3.If(lowb(a[0], "int"), lowi(a[1]), lowi(a[2]))
     elif op == "uf":
@@ -948,6 +965,8 @@ def explore(fn, mode="bv", max_paths=20000, timeout_ms=20000, wall_s=None, pre=N
             c.pcn = []
             c.dpos = []
             c.assumed = []
+            if c.stats.paths == 0 and not c.decisions:
+                pass
             try:
                 res = ("ok", fn())
             except PathAbort:
@@ -979,6 +998,9 @@ def explore(fn, mode="bv", max_paths=20000, timeout_ms=20000, wall_s=None, pre=N
                         d.append(False)
                         break
             else:
+                c.pc = []
+                if c.query([]) != "sat":
+                    c.inconclusive.append("vacuity guard: the solver's base assertions (variable ranges, side conditions) are not satisfiable")
                 return c, out
             c.decisions = d
             c.cand = {k: v for k, v in c.cand.items() if k < len(d)}
@@ -1191,6 +1213,8 @@ class SI:
         return (-s) if (s < 0) else s
 
     def __mul__(s, o):
+        if isinstance(o, float):
+            return _mul_float(s, o)
         if not isinstance(o, (SI, int, SB)):
             return NotImplemented
         return wrap(n_mul(s.n, lift(o)))
@@ -1388,10 +1412,37 @@ class SI:
 
     @staticmethod
     def var(name, lo, hi):
-        n = mknode("var", (name, lo, hi), lo, hi)
-        if CTX is not None:
-            CTX.vars[name] = n
-        return SI(n)
+        return SI(new_var(name, lo, hi))
+
+
+def new_var(name, lo, hi):
+    """declare an integer variable (registered with the current exploration; its range constraint is asserted at once so
+    that models always give in-range values, also for variables that occur in no query)"""
+    n = mknode("var", (name, lo, hi), lo, hi)
+    c = CTX
+    if c is None:
+        raise RuntimeError("symbolic variables must be created inside an exploration")
+    prev = c.vars.get(name)
+    if prev is None:
+        c.vars[name] = n
+        # range constraint, per exploration (never global: the same name may be reused with another range elsewhere)
+        if c.mode == "int":
+            v = lowi(n)
+            c.solver.add(v >= lo, v <= hi)
+        elif lo >= 0:
+            w = n.U
+            v = low(n, w)
+            if hi != (1 << w) - 1:
+                c.solver.add(z3.ULE(v, z3.BitVecVal(hi, w)))
+            if lo > 0:
+                c.solver.add(z3.UGE(v, z3.BitVecVal(lo, w)))
+        else:
+            w = n.W
+            v = low(n, w)
+            c.solver.add(v <= z3.BitVecVal(hi, w), v >= z3.BitVecVal(lo, w))
+    elif prev is not n:
+        raise RuntimeError(f"variable {name} redeclared with a different range in one exploration")
+    return n
 
 
 def _clamp(n, lo, hi):
@@ -1453,6 +1504,42 @@ class Ratio:
     def __int__(self):
         q = self.num // self.den
         return q  # callers only use this for non-negative values
+
+    # display-only arithmetic (percentages in summary texts): scaling by an integer / another ratio stays exact; round() is
+    # only meaningful for text, so it keeps the exact value and formats opaquely
+    def __mul__(self, o):
+        if isinstance(o, Ratio):
+            return Ratio(self.num * o.num, self.den * o.den)
+        if isinstance(o, float):
+            raise Unsupported("Ratio * float")
+        return Ratio(self.num * o, self.den)
+
+    __rmul__ = __mul__
+
+    def __round__(self, ndigits=None):
+        return self
+
+    def __format__(self, spec):
+        return "<sym ratio>"
+
+    def __repr__(self):
+        return "<sym ratio>"
+
+    __str__ = __repr__
+
+
+def _mul_float(s, f):
+    """SI * float in the one case where CPython's result is exact: f = +-2^k and |s| < 2^53 (int -> double is exact and
+    scaling by a power of two does not round).  The product is returned as an exact Ratio; anything that could round is
+    Unsupported (inconclusive), never silently approximated."""
+    import math
+    if f != f or f in (float("inf"), float("-inf")) or f == 0:
+        raise Unsupported("float multiplication (non-finite or zero operand)")
+    m, e = math.frexp(f)
+    if abs(m) != 0.5 or not -900 < e < 900 or max(abs(s.n.lo), abs(s.n.hi)) >= (1 << 53):
+        raise Unsupported("float multiplication that may round")
+    num, den = f.as_integer_ratio()
+    return Ratio(s * num, den)
 
 
 def _cmp_float(s, f, op, swap, neg):
